@@ -75,6 +75,22 @@ def run(ctx):
         if r.random() < 0.3:
             report[-1] = times[-1] + r.randrange(0, 5)          # beyond the end
             report.sort()
+        # one case in five: an observation ONE ULP after (or before) a report time — "at or before" is an exact comparison of the
+        # two floats, so the observation an ulp later does not count and the one an ulp earlier does (times accumulated by
+        # t += dt against a decimal report grid look like this: 0.1 + 0.2 = 0.30000000000000004 > 0.3)
+        if len(times) >= 2 and r.random() < 0.2:
+            i = r.randrange(1, len(times))
+            x = times[i]
+            up = r.random() < 0.7
+            y = F(float(np.nextafter(float(x), np.inf if up else -np.inf)))
+            lo = times[i - 1]
+            hi = times[i + 1] if i + 1 < len(times) else None
+            if lo <= y and (hi is None or y <= hi):
+                times[i] = y
+                if x >= report[0] and x not in report:
+                    report = sorted(report + [x])
+                ctx.count("subsample:observation one ulp %s a report time" % ("after" if up else "before") if x in report
+                          else "subsample:ulp-perturbed observation")
         nser = r.randint(1, 3)
         series = [[r.randrange(0, 20) for _ in times] for _ in range(nser)]
         rep = dict(entry="subsample", report=[str(x) for x in report], times=[str(x) for x in times], series=series)
